@@ -184,20 +184,37 @@ harnesses! {
         assert!(r2 == Err(ParseBioError::MismatchedLength(1, 2)), "C08.from_str.long_text_must_be_error");
         reach!("end");
     }
-    fn c08_q_from_str_wrong_length_full_storage [70] {
-        // k-mers that fill their storage exactly: one character too many / too few is still MismatchedLength
+    // k-mers that fill their storage exactly: one character too many / too few is still MismatchedLength
+    fn c08_q_from_str_too_long_text16_u128 [40] {
         let r = Kmer::<text::Dna, 16, u128>::from_str("ACGTACGTACGTACGTA");
-        assert!(r == Err(ParseBioError::MismatchedLength(16, 17)), "C08.from_str.long_text_must_be_error_text16_u128");
-        let r = Kmer::<Dna, 32>::from_str("ACGTACGTACGTACGTACGTACGTACGTACGTA");
-        assert!(r == Err(ParseBioError::MismatchedLength(32, 33)), "C08.from_str.long_text_must_be_error_dna32");
-        let r = Kmer::<Dna, 64, u128>::from_str("ACGTACGTACGTACGTACGTACGTACGTACGTACGTACGTACGTACGTACGTACGTACGTACGTA");
-        assert!(r == Err(ParseBioError::MismatchedLength(64, 65)), "C08.from_str.long_text_must_be_error_dna64_u128");
+        assert!(r == Err(ParseBioError::MismatchedLength(16, 17)), "C08.from_str.long_text_must_be_error");
+        reach!("end");
+    }
+    fn c08_q_from_str_too_long_amino21_u128 [40] {
         let r = Kmer::<Amino, 21, u128>::from_str("ACDEFGHIKLMNPQRSTVWYAC");
-        assert!(r == Err(ParseBioError::MismatchedLength(21, 22)), "C08.from_str.long_text_must_be_error_amino21_u128");
-        let r = Kmer::<Iupac, 16, u64>::from_str("ACGTRYSWKMBDHVN");
-        assert!(r == Err(ParseBioError::MismatchedLength(16, 15)), "C08.from_str.short_text_must_be_error_iupac16_u64");
+        assert!(r == Err(ParseBioError::MismatchedLength(21, 22)), "C08.from_str.long_text_must_be_error");
+        reach!("end");
+    }
+    fn c08_q_from_str_too_long_text8 [40] {
+        let r = Kmer::<text::Dna, 8>::from_str("ACGTACGTA");
+        assert!(r == Err(ParseBioError::MismatchedLength(8, 9)), "C08.from_str.long_text_must_be_error");
+        let r = Kmer::<text::Dna, 8, u64>::from_str("ACGTACG");
+        assert!(r == Err(ParseBioError::MismatchedLength(8, 7)), "C08.from_str.short_text_must_be_error");
+        reach!("end");
+    }
+    fn c08_t_from_str_too_long_dna32 [70] {
+        let r = Kmer::<Dna, 32>::from_str("ACGTACGTACGTACGTACGTACGTACGTACGTA");
+        assert!(r == Err(ParseBioError::MismatchedLength(32, 33)), "C08.from_str.long_text_must_be_error");
+        reach!("end");
+    }
+    fn c08_t_from_str_too_long_iupac32_u128 [70] {
         let r = Kmer::<Iupac, 32, u128>::from_str("ACGTRYSWKMBDHVNACGTRYSWKMBDHVNACG");
-        assert!(r == Err(ParseBioError::MismatchedLength(32, 33)), "C08.from_str.long_text_must_be_error_iupac32_u128");
+        assert!(r == Err(ParseBioError::MismatchedLength(32, 33)), "C08.from_str.long_text_must_be_error");
+        reach!("end");
+    }
+    fn c08_t_from_str_too_long_dna64_u128 [70] {
+        let r = Kmer::<Dna, 64, u128>::from_str("ACGTACGTACGTACGTACGTACGTACGTACGTACGTACGTACGTACGTACGTACGTACGTACGTA");
+        assert!(r == Err(ParseBioError::MismatchedLength(64, 65)), "C08.from_str.long_text_must_be_error");
         reach!("end");
     }
     fn c08_q_kmer_macro [10] {
